@@ -450,6 +450,51 @@ func runCheck(id, tier string, seed int, propose, verbose bool) int {
 		level = "other"
 		cov["explanation"] = "no obligation discharged"
 	}
+	if tier == "thorough" && os.Getenv("GVC_REPO") == "" {
+		// deeper exploration of the same property: (a) solver agreement and long timeouts (above);
+		// (b) every differential harness registered for a function of this property is run on the
+		// unchanged tree -- a boundary-value search on the REAL code for a violation of the same
+		// contract; (c) the must-fail corpus of the property (pre-fix versions of repaired defects,
+		// seeded changes) is replayed on scratch copies: a canary that no longer fires means the
+		// check lost strength (reported in the evidence, not as a property violation).
+		var index map[string]struct {
+			Pkg  string `json:"pkg"`
+			File string `json:"file"`
+			Run  string `json:"run"`
+		}
+		harness := []map[string]any{}
+		if err := loadJSON(filepath.Join(VerifDir, "replay", "index.json"), &index); err == nil {
+			ran := map[string]bool{}
+			for _, fnName := range sortedKeys(index) {
+				t := index[fnName]
+				if !seenFn[fnName] || ran[t.File] {
+					continue
+				}
+				ran[t.File] = true
+				ok, out := runOverlayTest(t.Pkg, filepath.Join(VerifDir, "replay", t.File), t.Run, 600)
+				h := map[string]any{"harness": t.File, "function": fnName, "passed": ok}
+				if !ok && strings.Contains(out, "REPLAY-VIOLATION") {
+					rec := &ReplayRecord{Verdict: "replayed", Witness: firstLineWith(out, "REPLAY-VIOLATION"), TestPkg: t.Pkg, TestFile: filepath.Join(VerifDir, "replay", t.File), TestOutput: tail(out, 6000), SolverOutput: "differential harness on the real code"}
+					rec.TestCmd = fmt.Sprintf("cd %s && go test -overlay <ov:%s> -vet=off -count=1 -run '%s' ./%s/", RepoDir, t.File, t.Run, t.Pkg)
+					fail("harness:"+fnName, "differential harness found a violating input on the real code", rec)
+				} else if !ok {
+					h["note"] = "harness did not build or run: " + tail(out, 300)
+				}
+				harness = append(harness, h)
+			}
+		}
+		cov["harnesses"] = harness
+		canaries := []map[string]any{}
+		p1, _ := filepath.Glob(filepath.Join(VerifDir, "selftest", id, "*.patch"))
+		p2, _ := filepath.Glob(filepath.Join(VerifDir, "seeded", id+"-*", "patch.diff"))
+		ps := append(p1, p2...)
+		sort.Strings(ps)
+		for _, pth := range ps {
+			res, detail := selftestOne(id, pth)
+			canaries = append(canaries, map[string]any{"patch": strings.TrimPrefix(pth, VerifDir+"/"), "result": res, "obligations": detail})
+		}
+		cov["canaries"] = canaries
+	}
 	assumptions := append([]string{}, cfg.Assumptions...)
 	assumptions = append(assumptions, "machine integers: exact wrap-around semantics; math.Int/LegacyDec: mathematical integers (256-bit cap not modelled)", "trusted contracts and native models listed in coverage.trusted_base", "codecs round-trip; hashes / ABI packing injective (where used)")
 	writeEvidence(evidencePath, id, tier, seed, level, cov, assumptions, time.Since(t0).Seconds(), len(violations))
